@@ -12,7 +12,7 @@ func init() {
 	register(&Check{
 		ID:    "C12",
 		Level: "exploration",
-		Rule: "random histories (1-3 writers, inserts, updates, deletes, re-inserts, merges of forks, entries_per_node 2,3,4,4096 so that identical subtrees are skipped) record (version, rows) after every step; for ordered pairs (A,B) of recorded versions - all pairs up to 12 versions, 80 sampled pairs beyond, 'to' omitted (= current) included - the rows R of s3db_changes(from=A,to=B) must satisfy R subset-of rows(B) with identical values and diff(rows(A),rows(B)) subset-of R, and the query must not fail; " +
+		Rule: "random histories (1-3 writers, inserts, updates, deletes, re-inserts, merges of forks, entries_per_node 2,3,4,4096 so that identical subtrees are skipped) record (version, rows) after every step; for ordered pairs (A,B) of recorded versions - all pairs up to 12 versions, 80 sampled pairs beyond, 'to' omitted (= current) included - the rows R of s3db_changes(from=A,to=B) must satisfy R subset-of rows(B) with identical values and diff(rows(A),rows(B)) subset-of R, and the query must not fail; a third of the pairs are also read as the inner table of a join (three outer rows: the same rows three times); a changes table created once with 'to' omitted is queried after every step of writer 0 whose view is all the bucket holds, and must return the current rows each time; " +
 			"for a sample of pairs the diff is re-run with one injected storage error at EVERY request position of the diff: each run must end in an error or satisfy the same two inclusions. " +
 			"non-trivial = a pair whose versions differ in >=1 row and where B lacks a row of A (a delete between them); distinct = hash of (rows(A), rows(B))",
 		Flavours: []string{"plain"},
@@ -62,6 +62,14 @@ func runC12(c *Case) {
 			w.refresh(wi)
 		}
 	}
+	// one long-lived changes table on writer 0's table, from nothing to the current version ('to'
+	// omitted): every time it is queried it must return exactly the rows writer 0 sees then
+	live := tname(c, "live")
+	if err := w.ws[0].conn.Exec(fmt.Sprintf("create virtual table %s using s3db_changes (table='%s', from='[]')", live, w.ws[0].table)); err != nil {
+		fail("query-error", "creating a changes table with 'to' omitted: "+err.Error())
+		return
+	}
+	defer w.ws[0].conn.Exec("drop table " + live)
 	for i := 0; i < steps; i++ {
 		wi := r.Intn(nw)
 		switch x := r.Intn(100); {
@@ -76,9 +84,21 @@ func runC12(c *Case) {
 				return
 			}
 		}
-		if _, err := h.record(c, i, wi); err != nil {
+		if snap, err := h.record(c, i, wi); err != nil {
 			fail("record-error", err.Error())
 			return
+		} else if wi == 0 && snap != nil && snap.Bucket1 {
+			// ('to' omitted is what the bucket holds now; compared when that is exactly writer 0's view)
+			rows, err := w.ws[0].conn.Rows("select * from " + live)
+			c.Count("long_lived_table_queries", 1)
+			if err != nil {
+				fail("query-error", fmt.Sprintf("step %d: the long-lived changes table ('to' omitted) failed: %v", i, err))
+				return
+			}
+			if d := firstDiff(snap.Dump, sortedRows(rows)); d != "" {
+				fail("stale-current-version", fmt.Sprintf("step %d: a changes table created earlier with 'to' omitted does not return the current rows (rows vs changes from nothing): %s", i, d))
+				return
+			}
 		}
 		// a read-only observer over the unmerged versions: its version list has several names
 		if nw >= 2 && r.Intn(4) == 0 {
@@ -167,6 +187,7 @@ func runC12(c *Case) {
 		}
 		return "", ""
 	}
+	joinToo := false
 	runDiff := func(A, B *vsnap, omitTo bool) ([]string, error) {
 		ct := tname(c, "chg")
 		stmt := fmt.Sprintf("create virtual table %s using s3db_changes (table='%s', from='%s', to='%s')", ct, q.table, A.Raw, B.Raw)
@@ -177,7 +198,29 @@ func runC12(c *Case) {
 			return nil, fmt.Errorf("create: %w", err)
 		}
 		defer q.conn.Exec("drop table " + ct)
-		return q.conn.Rows("select * from " + ct)
+		rows, err := q.conn.Rows("select * from " + ct)
+		if err == nil && joinToo {
+			// the same diff as the inner table of a join: once per row of the outer table
+			jr, jerr := q.conn.Rows("select o.x, c.* from (select 1 as x union all select 2 union all select 3) o cross join " + ct + " c")
+			c.Count("diffs_as_inner_table_of_a_join", 1)
+			if jerr != nil {
+				return rows, fmt.Errorf("as the inner table of a join: %w", jerr)
+			}
+			for x := 1; x <= 3; x++ {
+				var part []string
+				pre := fmt.Sprintf("i:%d|", x)
+				for _, row := range jr {
+					if strings.HasPrefix(row, pre) {
+						part = append(part, strings.TrimPrefix(row, pre))
+					}
+				}
+				// (not necessarily the rows of the scan above: unchanged rows may or may not be reported)
+				if sig, msg := check(A, B, part); sig != "" {
+					return rows, fmt.Errorf("JOINDIFF as the inner table of a join, for outer row %d of 3 (%d rows; %d on its own): %s: %s", x, len(part), len(rows), sig, msg)
+				}
+			}
+		}
+		return rows, err
 	}
 	faultBudget := 3
 	for _, p := range pairs {
@@ -190,6 +233,15 @@ func runC12(c *Case) {
 		reqs, _ := client.Counters()
 		c.Count("pairs_diffed", 1)
 		desc := fmt.Sprintf("from %s (step %d) to %s (step %d)", A.Raw, A.Step, B.Raw, B.Step)
+		if err == nil && r.Intn(3) == 0 {
+			joinToo = true
+			_, err = runDiff(A, B, false)
+			joinToo = false
+			if err != nil && strings.Contains(err.Error(), "JOINDIFF") {
+				fail("join-differs", "s3db_changes "+desc+": "+strings.Replace(err.Error(), "JOINDIFF ", "", 1))
+				break
+			}
+		}
 		if err != nil {
 			fail("query-error", fmt.Sprintf("s3db_changes %s failed without any fault: %v", desc, err))
 			break
@@ -313,6 +365,44 @@ func runC12(c *Case) {
 				break
 			}
 		}
+	}
+	// the table declared again over the same prefix with one more column: setting only that column
+	// of a row written under the old declaration changes the row, and the diff has to say so
+	if c.Res.Status != "violated" {
+		wc := OpenConn("wide")
+		wt := tname(c, "wide")
+		if err := wc.Create(TableSpec{Name: wt, Cols: "k PRIMARY KEY, a, b, c, d", Store: w.st.Name, Client: "wide", Prefix: w.prefix, EPN: epn}); err == nil {
+			keys, _ := wc.Rows("select k from " + wt)
+			v1, e1 := wc.Scalar("select s3db_version('" + wt + "')")
+			if len(keys) > 0 && e1 == nil {
+				k := keys[r.Intn(len(keys))]
+				wc.SetWriteTime(5000)
+				n, err := wc.ExecN("update " + wt + " set d = 'added' where k = " + strings.TrimPrefix(k, "i:"))
+				v2, e2 := wc.Scalar("select s3db_version('" + wt + "')")
+				if err == nil && n == 1 && e2 == nil {
+					ct := tname(c, "widechg")
+					if err := wc.Exec(fmt.Sprintf("create virtual table %s using s3db_changes (table='%s', from='%s', to='%s')", ct, wt, strings.TrimPrefix(v1, "t:"), strings.TrimPrefix(v2, "t:"))); err == nil {
+						rows, err := wc.Rows("select k, d from " + ct)
+						wc.Exec("drop table " + ct)
+						c.Count("diffs_after_widening_the_declaration", 1)
+						if err != nil {
+							fail("query-error", "s3db_changes over an update of an added column failed: "+err.Error())
+						} else {
+							found := false
+							for _, row := range rows {
+								if row == k+"|t:added" {
+									found = true
+								}
+							}
+							if !found {
+								fail("differing-row-missing:added-column", fmt.Sprintf("key %s got a value in a column that the table's earlier declaration did not have; s3db_changes between the two versions reports %v", k, rows))
+							}
+						}
+					}
+				}
+			}
+		}
+		wc.Close()
 	}
 	c.Count("versions", int64(len(vs)))
 	if nontrivial {
